@@ -31,15 +31,24 @@ TESTS=$(cargo nextest run --workspace --no-fail-fast --tool-config-file pb:/w/li
 # my check, against this worktree
 mkdir -p $H && cp -r /verif/harness/Cargo.toml /verif/harness/.cargo $H/ && ln -s /verif/harness/src $H/src && cp /verif/harness/Cargo.lock $H/ 2>/dev/null
 sed -i "s#/repo/#$WT/#g" $H/Cargo.toml
+# further harness crates (des built with other features), e.g. /verif/harness_heap -> ${H}_heap
+XENV=""
+for hx in /verif/harness_*; do
+  [ -f $hx/Cargo.toml ] || continue
+  sfx=${hx#/verif/harness_}
+  mkdir -p ${H}_$sfx && cp -r $hx/Cargo.toml $hx/.cargo ${H}_$sfx/ && ln -s $(readlink -f $hx/src) ${H}_$sfx/src && cp $hx/Cargo.lock ${H}_$sfx/ 2>/dev/null
+  sed -i "s#/repo/#$WT/#g" ${H}_$sfx/Cargo.toml
+  XENV="$XENV VERIF_HARNESS_DIR_$(echo $sfx | tr a-z A-Z)=${H}_$sfx"
+done
 cd /verif
-VERIF_REPO_DIR=$WT VERIF_HARNESS_DIR=$H timeout 1800 python3 tools/check.py $ID --tier quick > $DST/check.log 2>&1; RC_CHECK=$?
+env $XENV VERIF_REPO_DIR=$WT VERIF_HARNESS_DIR=$H timeout 1800 python3 tools/check.py $ID --tier quick > $DST/check.log 2>&1; RC_CHECK=$?
 # further parts of the same check (tools/props/<id>_<part>.py), as in the manifest's quick_cmd
 idl=$(echo $ID | tr A-Z a-z)
 for pf in tools/props/${idl}_*.py; do
   [ -f "$pf" ] || continue
   [ $RC_CHECK -eq 0 ] || break
   pt=$(basename $pf .py); pt=${pt#${idl}_}
-  VERIF_REPO_DIR=$WT VERIF_HARNESS_DIR=$H timeout 1800 python3 tools/check.py $ID --part $pt --tier quick >> $DST/check.log 2>&1; RC_CHECK=$?
+  env $XENV VERIF_REPO_DIR=$WT VERIF_HARNESS_DIR=$H timeout 1800 python3 tools/check.py $ID --part $pt --tier quick >> $DST/check.log 2>&1; RC_CHECK=$?
 done
 VERDICT=$(grep -E "^VIOLATION" $DST/check.log | head -1); [ -z "$VERDICT" ] && VERDICT=$(grep -E "^OK" $DST/check.log | tail -1)
 REPLAY=$(echo "$VERDICT" | sed -n 's/.*replay=\([^ ]*\).*/\1/p')
@@ -61,5 +70,5 @@ meta = {
 json.dump(meta, open("$DST/meta.json", "w"), indent=1)
 print("$ID/$NAME: demo without=%d with=%d | %s | check exit=%d %s" % ($RC_WITHOUT, $RC_WITH, """$TESTS""".strip(), $RC_CHECK, """$VERDICT"""))
 EOF
-rm -rf $WT/target $H
+rm -rf $WT/target $H ${H}_*
 git -C /repo worktree remove --force $WT
